@@ -201,6 +201,14 @@ example :
 example : SvOps.conjT (fromStateVector exψ) = fromStateVector exψ ∧ rtrace (fromStateVector exψ) = ⟨65 / 4, 0⟩ := by
   decide +kernel
 
+/-- Observation on `sparse_kron`'s `is_coalesced=True` flag: the a-major product list is duplicate-free here but
+**not** sorted by `(row, col)` (here `(1,0)` precedes `(0,2)`), so the flag is not literally true; every consumer in
+`sparse_operator.py` re-coalesces or is order-insensitive, so no value is affected. -/
+example :
+    let a : Coo K := [(0, 0, 1), (0, 1, 2)]
+    let b : Coo K := [(0, 0, 1), (1, 0, 3)]
+    (sparseKron 2 2 a b).map (fun e => (e.1, e.2.1)) = [(0, 0), (1, 0), (0, 2), (1, 2)] := by decide +kernel
+
 end examples
 
 end EmuVerif.Props.C12
